@@ -94,9 +94,14 @@ func genConcScenario(rng *rand.Rand, prop string, idx int) concScenario {
 	if rng.Intn(6) == 0 {
 		nClients = 4
 	}
+	forceSingleOp := false
+	if ks := map[string][]string{"C13": {"ik-same", "ik-drain", "ik-different", "ik-revert", "ik-meta", "ik-drain"}}[prop]; ks != nil && ks[idx%len(ks)] == "ik-drain" {
+		nClients = 3
+		forceSingleOp = true
+	}
 	kinds := map[string][]string{
 		"C06": {"overdraft", "overdraft", "revert-funds", "mixed"},
-		"C13": {"ik-same", "ik-same", "ik-different", "ik-revert", "ik-meta"},
+		"C13": {"ik-same", "ik-drain", "ik-different", "ik-revert", "ik-meta", "ik-drain"},
 		"C14": {"reference"},
 		"C15": {"revert", "revert", "revert-funds"},
 		"C08": {"mixed", "overdraft", "revert", "ik-same", "reference"},
@@ -104,7 +109,7 @@ func genConcScenario(rng *rand.Rand, prop string, idx int) concScenario {
 	sc.Kind = kinds[idx%len(kinds)]
 	for c := 0; c < nClients; c++ {
 		nOps := 1
-		if rng.Intn(3) == 0 && nClients < 4 {
+		if rng.Intn(3) == 0 && nClients < 4 && !forceSingleOp {
 			nOps = 2
 		}
 		var ops []concOp
@@ -144,6 +149,15 @@ func genConcScenario(rng *rand.Rand, prop string, idx int) concScenario {
 				o.Op.IK = "shared-key"
 				if idx%3 == 0 {
 					o.Op.Reference = "ik-ref"
+				}
+			case "ik-drain":
+				// two requests share a key and an input that fits twice (a=6, send 3); a third, keyless request
+				// drains the rest: the retried execution of the late twin then fails on its own
+				if c < 2 {
+					o = mkTransfer(rng, "a", "b", 3, []string{"postings", "script"}[idx%2])
+					o.Op.IK = "shared-key"
+				} else {
+					o = mkTransfer(rng, "a", "c", 3, "postings")
 				}
 			case "ik-different":
 				o = mkTransfer(rng, "a", "b", int64(1+c), "postings")
